@@ -55,4 +55,3 @@ func writeMain(args []string) {
 	// stdout is not subject to RLIMIT_FSIZE when it is a pipe
 	_ = json.NewEncoder(os.Stdout).Encode(out)
 }
-
